@@ -22,6 +22,8 @@ import (
 	"fmt"
 	"go/ast"
 	"go/format"
+	"go/parser"
+	"go/printer"
 	"go/token"
 	"go/types"
 	"os"
@@ -89,6 +91,7 @@ func main() {
 
 	var sites []site
 	var skipped []string
+	var yieldFiles []string // files that get R2 yields in a second, purely textual pass
 	changed := map[string]*ast.File{}
 	fsets := map[string]*token.FileSet{}
 	for _, p := range pkgs {
@@ -108,14 +111,21 @@ func main() {
 				n, sk := rewriteMapRanges(p, f, relf, &sites, *mode == "scan")
 				touched = n > 0
 				skipped = append(skipped, sk...)
+			case "c07":
+				if rel == "parse" {
+					n, sk := rewriteConcurrency(p, f, relf, &sites)
+					skipped = append(skipped, sk...)
+					touched = n > 0
+					yieldFiles = append(yieldFiles, name)
+				}
 			case "c06":
 				if rel == "xpath" || strings.HasPrefix(rel, "xpath/xutils") || strings.HasPrefix(rel, "xpath/grammars/") {
 					if strings.Contains(rel, "lexertest") {
 						continue
 					}
 					n := rewriteLocks(p, f, relf, &sites)
-					n += insertYields(p, f, relf, &sites)
 					touched = n > 0
+					yieldFiles = append(yieldFiles, name)
 				}
 			}
 			if touched {
@@ -134,10 +144,20 @@ func main() {
 		for _, n := range names {
 			var buf bytes.Buffer
 			if err := format.Node(&buf, fsets[n], changed[n]); err != nil {
-				fatal(fmt.Errorf("format %s: %v", n, err))
+				var raw bytes.Buffer
+				printer.Fprint(&raw, fsets[n], changed[n])
+				os.WriteFile(n+".simrewrite-failed", raw.Bytes(), 0o644)
+				fatal(fmt.Errorf("format %s: %v (raw output kept next to the file)", n, err))
 			}
 			if err := os.WriteFile(n, buf.Bytes(), 0o644); err != nil {
 				fatal(err)
+			}
+		}
+		sort.Strings(yieldFiles)
+		for _, n := range yieldFiles {
+			relf, _ := filepath.Rel(*repo, n)
+			if err := insertYieldsText(n, relf, &sites); err != nil {
+				fatal(fmt.Errorf("yields in %s: %v", n, err))
 			}
 		}
 		if err := writeRuntime(filepath.Join(*repo, "zz_verifsimrt")); err != nil {
@@ -159,6 +179,10 @@ func main() {
 	}
 	for _, s := range skipped {
 		fmt.Printf("UNREWRITTEN %s\n", s)
+	}
+	if len(skipped) > 0 && *mode == "c07" {
+		fmt.Fprintln(os.Stderr, "simrewrite: concurrency constructs the schedule mode cannot simulate:", strings.Join(skipped, "; "))
+		os.Exit(3)
 	}
 	if len(skipped) > 0 && *mode == "c11" {
 		for _, s := range skipped {
@@ -331,25 +355,126 @@ func rewriteLocks(p *packages.Package, f *ast.File, relf string, sites *[]site) 
 }
 
 // ---------------------------------------------------------------------------
-// R2
+// R4 (mode c07): goroutine creation and channel operations
 
-func yieldStmt(id string) ast.Stmt {
-	return &ast.ExprStmt{X: &ast.CallExpr{
-		Fun:  &ast.SelectorExpr{X: ast.NewIdent("verifsimrt"), Sel: ast.NewIdent("Yield")},
-		Args: []ast.Expr{&ast.BasicLit{Kind: token.STRING, Value: fmt.Sprintf("%q", id)}},
-	}}
+func isChan(p *packages.Package, e ast.Expr) bool {
+	tv, ok := p.TypesInfo.Types[e]
+	if !ok {
+		return false
+	}
+	_, is := tv.Type.Underlying().(*types.Chan)
+	return is
 }
 
-func insertYields(p *packages.Package, f *ast.File, relf string, sites *[]site) int {
-	n := 0
+func simCall(name, id string, args ...ast.Expr) *ast.CallExpr {
+	return &ast.CallExpr{
+		Fun:  &ast.SelectorExpr{X: ast.NewIdent("verifsimrt"), Sel: ast.NewIdent(name)},
+		Args: append([]ast.Expr{&ast.BasicLit{Kind: token.STRING, Value: fmt.Sprintf("%q", id)}}, args...),
+	}
+}
+
+func rewriteConcurrency(p *packages.Package, f *ast.File, relf string, sites *[]site) (n int, skipped []string) {
+	add := func(node ast.Node, kind string) string {
+		id := pos(p, relf, node) + ":" + kind
+		*sites = append(*sites, site{ID: id, Rule: "R4", Pkg: pkgRel(p)})
+		n++
+		return id
+	}
+	astutil.Apply(f, func(c *astutil.Cursor) bool {
+		switch x := c.Node().(type) {
+		case *ast.SelectStmt:
+			skipped = append(skipped, pos(p, relf, x)+" (select statement)")
+			return false
+		case *ast.GoStmt:
+			id := add(x, "go")
+			call := x.Call
+			c.Replace(&ast.ExprStmt{X: simCall("Go", id, &ast.FuncLit{
+				Type: &ast.FuncType{Params: &ast.FieldList{}},
+				Body: &ast.BlockStmt{List: []ast.Stmt{&ast.ExprStmt{X: call}}},
+			})})
+			return false
+		case *ast.SendStmt:
+			if isChan(p, x.Chan) {
+				id := add(x, "send")
+				c.Replace(&ast.ExprStmt{X: simCall("Send", id, x.Chan, x.Value)})
+				return false
+			}
+		case *ast.RangeStmt:
+			if isChan(p, x.X) {
+				if x.Value != nil || (x.Key != nil && x.Tok != token.DEFINE) {
+					skipped = append(skipped, pos(p, relf, x)+" (range over channel, unsupported form)")
+					return false
+				}
+				id := add(x, "range")
+				key := ast.Expr(ast.NewIdent("_"))
+				if x.Key != nil {
+					key = x.Key
+				}
+				recv := &ast.AssignStmt{Lhs: []ast.Expr{key, ast.NewIdent("verifsimrtOK")}, Tok: token.DEFINE, Rhs: []ast.Expr{simCall("Recv2", id, x.X)}}
+				brk := &ast.IfStmt{Cond: &ast.UnaryExpr{Op: token.NOT, X: ast.NewIdent("verifsimrtOK")}, Body: &ast.BlockStmt{List: []ast.Stmt{&ast.BranchStmt{Tok: token.BREAK}}}}
+				body := &ast.BlockStmt{List: append([]ast.Stmt{recv, brk}, x.Body.List...)}
+				c.Replace(&ast.ForStmt{Body: body})
+				return true
+			}
+		case *ast.AssignStmt:
+			if len(x.Lhs) == 2 && len(x.Rhs) == 1 {
+				if u, ok := x.Rhs[0].(*ast.UnaryExpr); ok && u.Op == token.ARROW && isChan(p, u.X) {
+					id := add(x, "recv2")
+					x.Rhs[0] = simCall("Recv2", id, u.X)
+					return false
+				}
+			}
+		case *ast.UnaryExpr:
+			if x.Op == token.ARROW && isChan(p, x.X) {
+				id := add(x, "recv")
+				c.Replace(simCall("Recv", id, x.X))
+				return false
+			}
+		case *ast.CallExpr:
+			if fn, ok := x.Fun.(*ast.Ident); ok && fn.Name == "close" && len(x.Args) == 1 && isChan(p, x.Args[0]) {
+				if _, isBuiltin := p.TypesInfo.Uses[fn].(*types.Builtin); isBuiltin {
+					id := add(x, "close")
+					c.Replace(simCall("Close", id, x.Args[0]))
+					return false
+				}
+			}
+		}
+		return true
+	}, nil)
+	return
+}
+
+// ---------------------------------------------------------------------------
+// R2
+
+// insertYieldsText puts `verifsimrt.Yield("site");` right after the opening
+// brace of every function body, function literal body and for/range body of a
+// file. It works on the text (offsets from a syntax-only parse), not through
+// go/printer: a synthetic statement in front of a comment that follows the brace
+// gets torn apart by the printer.
+func insertYieldsText(path, relf string, sites *[]site) error {
+	src, err := os.ReadFile(path)
+	if err != nil {
+		return err
+	}
+	fset := token.NewFileSet()
+	f, err := parser.ParseFile(fset, path, src, parser.SkipObjectResolution)
+	if err != nil {
+		return err
+	}
+	type ins struct {
+		off  int
+		text string
+	}
+	var list []ins
 	add := func(b *ast.BlockStmt, at ast.Node, kind string) {
 		if b == nil {
 			return
 		}
-		id := pos(p, relf, at) + ":" + kind
-		*sites = append(*sites, site{ID: id, Rule: "R2", Pkg: pkgRel(p)})
-		b.List = append([]ast.Stmt{yieldStmt(id)}, b.List...)
-		n++
+		ps := fset.Position(at.Pos())
+		id := fmt.Sprintf("%s:%d:%d:%s", relf, ps.Line, ps.Column, kind)
+		*sites = append(*sites, site{ID: id, Rule: "R2", Pkg: filepath.ToSlash(filepath.Dir(relf))})
+		list = append(list, ins{fset.Position(b.Lbrace).Offset + 1, fmt.Sprintf(" verifsimrt.Yield(%q);", id)})
 	}
 	ast.Inspect(f, func(node ast.Node) bool {
 		switch x := node.(type) {
@@ -366,7 +491,26 @@ func insertYields(p *packages.Package, f *ast.File, relf string, sites *[]site) 
 		}
 		return true
 	})
-	return n
+	if len(list) == 0 {
+		return nil
+	}
+	sort.Slice(list, func(i, j int) bool { return list[i].off > list[j].off })
+	out := append([]byte(nil), src...)
+	for _, in := range list {
+		out = append(out[:in.off:in.off], append([]byte(in.text), out[in.off:]...)...)
+	}
+	// make sure the runtime package is imported
+	if !bytes.Contains(out, []byte(rtPath)) {
+		end := fset.Position(f.Name.End()).Offset
+		imp := fmt.Sprintf("\n\nimport verifsimrt %q\n", rtPath)
+		out = append(out[:end:end], append([]byte(imp), out[end:]...)...)
+	}
+	fmted, err := format.Source(out)
+	if err != nil {
+		os.WriteFile(path+".simrewrite-failed", out, 0o644)
+		return err
+	}
+	return os.WriteFile(path, fmted, 0o644)
 }
 
 // ---------------------------------------------------------------------------
@@ -518,5 +662,112 @@ func RWRUnlock(site string, m *sync.RWMutex) {
 	if h := UnlockHook; h != nil {
 		h(site)
 	}
+}
+
+// ---- R4: goroutines and channels ----------------------------------------------
+//
+// With Sim == nil these are the plain Go operations. With a simulator installed
+// goroutines become scheduler workers and channels are simulated queues: a
+// sender parks until its item has been taken (capacity 0) and a receiver parks
+// until an item or a close arrives; parking and waking go through the hooks, so
+// the scheduler decides every interleaving and sees every deadlock.
+
+type Simulator struct {
+	Spawn   func(site string, fn func())
+	Blocked func(site string) // park until some other worker reports an event
+	Event   func(site string) // something changed that may unblock others (also a switch point)
+}
+
+var Sim *Simulator
+
+type simChan struct {
+	q      []any
+	sent   int
+	taken  int
+	closed bool
+}
+
+var simChans = map[any]*simChan{}
+
+// ResetChannels forgets all simulated channel state (between cases).
+func ResetChannels() { simChans = map[any]*simChan{} }
+
+func chanOf(ch any) *simChan {
+	c := simChans[ch]
+	if c == nil {
+		c = &simChan{}
+		simChans[ch] = c
+	}
+	return c
+}
+
+func Go(site string, fn func()) {
+	if s := Sim; s != nil {
+		s.Spawn(site, fn)
+		return
+	}
+	go fn()
+}
+
+func Send[T any](site string, ch chan T, v T) {
+	s := Sim
+	if s == nil {
+		ch <- v
+		return
+	}
+	c := chanOf(ch)
+	if c.closed {
+		panic("send on closed channel")
+	}
+	c.q = append(c.q, v)
+	my := c.sent
+	c.sent++
+	s.Event(site)
+	for c.taken+cap(ch) <= my {
+		if c.closed {
+			panic("send on closed channel")
+		}
+		s.Blocked(site)
+	}
+}
+
+func Recv2[T any](site string, ch chan T) (T, bool) {
+	s := Sim
+	if s == nil {
+		v, ok := <-ch
+		return v, ok
+	}
+	c := chanOf(ch)
+	for len(c.q) == 0 {
+		if c.closed {
+			var zero T
+			return zero, false
+		}
+		s.Blocked(site)
+	}
+	v := c.q[0].(T)
+	c.q = c.q[1:]
+	c.taken++
+	s.Event(site)
+	return v, true
+}
+
+func Recv[T any](site string, ch chan T) T {
+	v, _ := Recv2(site, ch)
+	return v
+}
+
+func Close[T any](site string, ch chan T) {
+	s := Sim
+	if s == nil {
+		close(ch)
+		return
+	}
+	c := chanOf(ch)
+	if c.closed {
+		panic("close of closed channel")
+	}
+	c.closed = true
+	s.Event(site)
 }
 `
